@@ -117,10 +117,11 @@ int main(void)
 			p383(&cand); putchar('\n');
 		} else if (!strcmp(line, "y.cand")) {
 			/* y.cand ywd Y wk | dow ;  ymcw Y dow | months ;  mdall Y months | WDMASK ;  ycw Y dow ;  ydall Y WDMASK ;
-			 * yd Y doy | WDMASK ;  ymdallm Y doms | WDMASK ;  ymdalld Y months | WDMASK ;  ymd Y months | doms | WDMASK */
+			 * yd Y doy | dow | WDMASK | MP ;  ymdallm Y doms | dow | WDMASK ;  ymdalld Y months | WDMASK ;
+			 * ymd Y months | doms | dow | WDMASK ;  lim Y cands | months | doms | wk | doy | pdow */
 			char fn[32]; int off = 0;
 			if (sscanf(arg, "%31s %u %n", fn, &a, &off) < 2) { puts("bad-op"); continue; }
-			char *f[4]; int nf = fields(arg + off, f, 3);
+			char *f[8]; int nf = fields(arg + off, f, 6);
 			bitint383_t cand; memset(&cand, 0, sizeof(cand));
 			unsigned m[12]; size_t nm = 0; int d[62]; size_t nd = 0;
 			if (!strcmp(fn, "ywd") && nf >= 2) {
@@ -140,19 +141,31 @@ int main(void)
 				fill_yly_ycw(&cand, a, &dow);
 			} else if (!strcmp(fn, "ydall") && nf >= 1) {
 				fill_yly_yd_all(&cand, a, (uint8_t)atoi(f[0]));
-			} else if (!strcmp(fn, "yd") && nf >= 2) {
+			} else if (!strcmp(fn, "yd") && nf >= 4) {
 				bitint383_t doy; memset(&doy, 0, sizeof(doy)); r383(&doy, f[0]);
-				fill_yly_yd(&cand, a, &doy, (uint8_t)atoi(f[1]));
-			} else if (!strcmp(fn, "ymdallm") && nf >= 2) {
-				for (char *p = strtok(f[0], ","); p && nd < 62; p = strtok(NULL, ",")) d[nd++] = atoi(p);
-				fill_yly_ymd_all_m(&cand, SCALE_GREGORIAN, a, d, nd, (uint8_t)atoi(f[1]));
+				bitint447_t dow; memset(&dow, 0, sizeof(dow)); r447(&dow, f[1]);
+				fill_yly_yd(&cand, a, &doy, &dow, (uint8_t)atoi(f[2]), atoi(f[3]) != 0);
+			} else if (!strcmp(fn, "ymdallm") && nf >= 3) {
+				bitint447_t dow; memset(&dow, 0, sizeof(dow)); r447(&dow, f[1]);
+				if (strcmp(f[0], "-")) for (char *p = strtok(f[0], ","); p && nd < 62; p = strtok(NULL, ",")) d[nd++] = atoi(p);
+				fill_yly_ymd_all_m(&cand, SCALE_GREGORIAN, a, d, nd, &dow, (uint8_t)atoi(f[2]));
+			} else if (!strcmp(fn, "lim") && nf >= 6) {
+				bituint31_t mon = {0}; bitint31_t dom = {0}; bitint63_t wk = {0};
+				bitint383_t doy; memset(&doy, 0, sizeof(doy)); r383(&doy, f[4]);
+				bitint447_t pdow; memset(&pdow, 0, sizeof(pdow)); r447(&pdow, f[5]);
+				if (strcmp(f[0], "-")) for (char *p = strtok(f[0], ","); p; p = strtok(NULL, ",")) ass_bi383(&cand, atoi(p));
+				if (strcmp(f[1], "-")) for (char *p = strtok(f[1], ","); p; p = strtok(NULL, ",")) mon = ass_bui31(mon, atoi(p));
+				if (strcmp(f[2], "-")) for (char *p = strtok(f[2], ","); p; p = strtok(NULL, ",")) dom = ass_bi31(dom, atoi(p));
+				if (strcmp(f[3], "-")) for (char *p = strtok(f[3], ","); p; p = strtok(NULL, ",")) wk = ass_bi63(wk, atoi(p));
+				lim_cand(&cand, a, mon, dom, wk, &doy, &pdow);
 			} else if (!strcmp(fn, "ymdalld") && nf >= 2) {
 				for (char *p = strtok(f[0], ","); p && nm < 12; p = strtok(NULL, ",")) m[nm++] = atoi(p);
 				fill_yly_ymd_all_d(&cand, SCALE_GREGORIAN, a, m, nm, (uint8_t)atoi(f[1]));
-			} else if (!strcmp(fn, "ymd") && nf >= 3) {
+			} else if (!strcmp(fn, "ymd") && nf >= 4) {
+				bitint447_t dow; memset(&dow, 0, sizeof(dow)); r447(&dow, f[2]);
 				for (char *p = strtok(f[0], ","); p && nm < 12; p = strtok(NULL, ",")) m[nm++] = atoi(p);
 				for (char *p = strtok(f[1], ","); p && nd < 62; p = strtok(NULL, ",")) d[nd++] = atoi(p);
-				fill_yly_ymd(&cand, SCALE_GREGORIAN, a, m, nm, d, nd, (uint8_t)atoi(f[2]));
+				fill_yly_ymd(&cand, SCALE_GREGORIAN, a, m, nm, d, nd, &dow, (uint8_t)atoi(f[3]));
 			} else { puts("bad-op"); continue; }
 			p383(&cand); putchar('\n');
 		} else {
